@@ -414,3 +414,100 @@ Section StdGen.
       rewrite (std_threshold _ _ p HV HM Hb E). reflexivity.
   Qed.
 End StdGen.
+
+(* ------------------------------------------------------------------ masks_dilatation and its call in cv_masked *)
+
+Lemma existsb_eq : forall {X Y} (f : X -> bool) (g : Y -> bool) l1 l2,
+  (forall x, In x l1 -> f x = true -> exists y, In y l2 /\ g y = true) ->
+  (forall y, In y l2 -> g y = true -> exists x, In x l1 /\ f x = true) ->
+  existsb f l1 = existsb g l2.
+Proof.
+  intros X Y f g l1 l2 H1 H2. apply eq_iff_eq_true. rewrite !existsb_exists. split.
+  - intros (x & Hx & Hf). destruct (H1 x Hx Hf) as (y & Hy & Hg). exists y. split; assumption.
+  - intros (y & Hy & Hg). destruct (H2 y Hy Hg) as (x & Hx & Hf). exists x. split; assumption.
+Qed.
+
+(* scipy's binary_dilation with a full w x w structure (w odd) as NpArr.v reads it = the model's window maximum *)
+Lemma dilation_eq : forall ny nx w nd (m : img) r c, 0 < w -> Z.odd w = true ->
+  a_at (np_binary_dilation (np_eq_scalar (np_of ny nx m) nd) w w 1) r c = dilate ny nx w nd m r c.
+Proof.
+  intros ny nx w nd m r c Hw Hodd.
+  assert (Hoff : w / 2 = offset w /\ 2 * offset w = w - 1).
+  { unfold offset. apply Z.odd_spec in Hodd. destruct Hodd as [k Hk]. lia. }
+  destruct Hoff as (Hh & Hoff).
+  unfold np_binary_dilation, np_eq_scalar, np_map, np_of, dilate, inside. cbn [a_ok a_nr a_nc a_at]. cbv zeta.
+  rewrite Hh.
+  apply existsb_eq.
+  - intros i Hi Hf. rewrite zrange_In in Hi. apply existsb_exists in Hf. destruct Hf as (j & Hj & Hf).
+    rewrite zrange_In in Hj. exists (offset w - i). split; [rewrite zrange_In; lia|].
+    apply existsb_exists. exists (offset w - j). split; [rewrite zrange_In; lia|].
+    replace (r + (offset w - i)) with (r - (i - offset w)) by lia.
+    replace (c + (offset w - j)) with (c - (j - offset w)) by lia. exact Hf.
+  - intros a Ha Hf. rewrite zrange_In in Ha. apply existsb_exists in Hf. destruct Hf as (b & Hb & Hf).
+    rewrite zrange_In in Hb. exists (offset w - a). split; [rewrite zrange_In; lia|].
+    apply existsb_exists. exists (offset w - b). split; [rewrite zrange_In; lia|].
+    replace (r - (offset w - a - offset w)) with (r + a) by lia.
+    replace (c - (offset w - b - offset w)) with (c + b) by lia. exact Hf.
+Qed.
+
+Section MasksGen.
+  Variables (ny nx w s vp nd : Z).
+  Hypotheses (Hny : 0 <= ny) (Hnx : 1 <= nx) (Hw : 0 < w) (Hodd : Z.odd w = true).
+
+  (* an image dataset of ny x nx pixels with the optional mask m *)
+  Definition ds_of (im : img) (m : option img) : dataset :=
+    MkDs (np_of ny nx im) (match m with Some x => Some (np_of ny nx x) | None => None end) vp nd.
+
+  Lemma is_mask : forall (m : img),
+    is_arr (np_set_where (np_binary_dilation (np_eq_scalar (np_of ny nx m) nd) w w 1) true
+             (np_set_where (np_and (np_ne_scalar (np_of ny nx m) vp) (np_ne_scalar (np_of ny nx m) nd)) true
+                (np_zeros_mask ny nx)))
+           ny nx (mask_nan ny nx w vp nd (Some m)).
+  Proof.
+    intros m. split; [|split; [reflexivity|split; [reflexivity|]]].
+    - unfold np_set_where, np_binary_dilation, np_and, np_zip, np_ne_scalar, np_eq_scalar, np_map, np_zeros_mask,
+        np_of, same_shape. cbn [a_ok a_nr a_nc a_at]. rewrite Hodd. lia.
+    - intros r c _ _. unfold np_set_where at 1. cbn [a_at]. rewrite dilation_eq by assumption.
+      unfold np_set_where, np_and, np_zip, np_ne_scalar, np_map, np_zeros_mask, np_of. cbn [a_at].
+      unfold mask_nan, invalid_px.
+      destruct (dilate ny nx w nd m r c); destruct (negb (m r c =? vp) && negb (m r c =? nd)); reflexivity.
+  Qed.
+
+  Lemma is_no_mask : is_arr (np_zeros_mask ny nx) ny nx (mask_nan ny nx w vp nd None).
+  Proof. unfold is_arr, np_zeros_mask. cbn [a_ok a_nr a_nc a_at]. split; [lia|]. repeat split. Qed.
+
+  Lemma is_shift : forall a f, is_arr a ny nx f ->
+    is_arr (np_sum_strided3_nan a (a_nr a) (a_nc a - 1) 2 StRow StCol StCol) ny (nx - 1) (mask_shift f).
+  Proof.
+    intros a f (Hok & Hr & Hc & Hat). unfold is_arr, np_sum_strided3_nan. cbn [a_ok a_nr a_nc a_at on_row on_col].
+    rewrite Hok, Hr, Hc. split; [lia|]. split; [reflexivity|]. split; [reflexivity|].
+    intros r c R0 C0. change (zrange 0 2) with [0; 1]. cbn [existsb]. unfold mask_shift.
+    rewrite !Hat by lia. rewrite orb_false_r. f_equal; f_equal; lia.
+  Qed.
+
+  (* the masks that cv_masked receives are the model's: left and right dilated masks with the window of the measure,
+     and, exactly when subpix != 1, the two-column mask of the right one *)
+  Lemma gen_cv_masked_masks_eq : forall (IL IR : img) (mL mR : option img),
+    let res := GF.cv_masked_masks (ds_of IL mL) (ds_of IR mR) w s in
+    is_arr (fst res) ny nx (mask_nan ny nx w vp nd mL)
+    /\ is_arr (fst (snd res)) ny nx (mask_nan ny nx w vp nd mR)
+    /\ match snd (snd res) with
+       | Some sh => s <> 1 /\ is_arr sh ny (nx - 1) (mask_shift (mask_nan ny nx w vp nd mR))
+       | None => s = 1
+       end.
+  Proof.
+    intros IL IR mL mR. cbv zeta. unfold GF.cv_masked_masks, GF.masks_dilatation. cbv zeta.
+    unfold ds_of. cbn [d_im d_msk d_valid_pixels d_no_data_mask fst snd].
+    split; [destruct mL as [m|]; [exact (is_mask m)|exact is_no_mask]|].
+    assert (HR : is_arr (fst (snd (GF.cv_masked_masks (ds_of IL mL) (ds_of IR mR) w s))) ny nx (mask_nan ny nx w vp nd mR)).
+    { unfold GF.cv_masked_masks, GF.masks_dilatation. cbv zeta. unfold ds_of.
+      cbn [d_im d_msk d_valid_pixels d_no_data_mask fst snd].
+      destruct mR as [m|]; [exact (is_mask m)|exact is_no_mask]. }
+    unfold GF.cv_masked_masks, GF.masks_dilatation in HR. cbv zeta in HR. unfold ds_of in HR.
+    cbn [d_im d_msk d_valid_pixels d_no_data_mask fst snd] in HR.
+    split; [exact HR|].
+    destruct (s =? 1) eqn:Es; cbn [negb]; cbv iota.
+    - lia.
+    - split; [lia|]. apply is_shift. exact HR.
+  Qed.
+End MasksGen.
